@@ -375,6 +375,18 @@ def call_values(I, c, args, e=None, env=None):
         if gs:
             raise Undecided("product over a restricted range")
         return Num(Expr.atom(("prod", k, s_.classes[0], x.expr)))
+    if name in ("any", "all") and isinstance(args[0], Arr) and isinstance(args[1], (Closure, FnItem)):
+        s_, clo = args[0], args[1]
+        d = getattr(I, "quant_depth", 0)
+        I.quant_depth = d + 1
+        try:
+            dummy = "§q%d" % d
+            probe = I.apply(clo, [s_.at(dummy)])
+        finally:
+            I.quant_depth = d
+        if not isinstance(probe, Cond):
+            raise Undecided("%s predicate is not a condition" % name)
+        return Cond("key", "%s%s∈%s: (%s)" % ("∃" if name == "any" else "∀", dummy, s_.classes[0], probe.key()))
     if name == "filter" and isinstance(args[0], Arr) and isinstance(args[1], (Closure, FnItem)):
         s_, clo = args[0], args[1]
         probe = I.apply(clo, [s_.at("§")])
